@@ -1124,6 +1124,95 @@ def fnkinds(ctx, harness):
             seen.add(sig)
             ctx.violation(sig, "%s -> %s; expected %s" % (l, o[:300], e), {"kind": "history", "ops": [l], "observed": o, "expected": e})
 
+
+# ------------------------------------------------------------------------------------------------
+# correspondence C: the TARGET models (Ordinary.lean / Exotic.lean) against the real target objects
+# ------------------------------------------------------------------------------------------------
+
+MODEL_KINDS = {
+    "mobj": ["x", "y", "zz"],
+    "marr": ["i0", "i1", "i3", "i5", "length", "x", "zz"],
+    "mstr": ["i0", "i1", "i2", "length", "x", "zz"],
+    "mta": ["i0", "i2", "i3", "i5", "x", "zz"],
+    "margm": ["i0", "i1", "i2", "zz"],
+}
+MODEL_VALS = ["i1", "i2", "i7", "u", "n", "N", "z", "s1", "o3", "i0", "i300", "t"]
+
+def gen_model_hist(rng, kind, n):
+    ops = []
+    for _ in range(n):
+        r = rng.random()
+        k = rng.choice(MODEL_KINDS[kind])
+        if r < 0.28:
+            # (no setter functions: the harness's setter writes to its receiver, the model's setter call is an opaque no-op)
+            ops.append("def/%s/%s" % (k, rng.choice([d for d in SEQ_DESCS if "o2" not in d])))
+        elif r < 0.46:
+            ops.append("set/%s/%s" % (k, rng.choice(MODEL_VALS)))
+        elif r < 0.60:
+            ops.append("gopd/" + k)
+        elif r < 0.72:
+            ops.append("get/" + k)
+        elif r < 0.80:
+            ops.append("has/" + k)
+        elif r < 0.90:
+            ops.append("del/" + k)
+        elif r < 0.94:
+            ops.append("keys")
+        elif r < 0.97:
+            ops.append("pe")
+        else:
+            ops.append("ie")
+    return ops
+
+def norm_model_answer(a):
+    if a.startswith("T:") or a == "THROW":
+        return "THROW"
+    if a.startswith("k:"):
+        return "k:" + ",".join(sorted(x for x in a[2:].split(",") if x))
+    a = a.replace("Sstr", "s").replace("Sa", "s1001").replace("Sb", "s1002")
+    if a.startswith("d:A:"):
+        f = a[4:].split(",")
+        a = "d:A:%s,%s,%s,%s" % ("-" if f[0] == "u" else f[0], "-" if f[1] == "u" else f[1], f[2], f[3])
+    return a
+
+def modelcorr(ctx, harness, model):
+    if not model:
+        ctx.obligation("corr:target-models==implementation", "correspondence", False, "Lean driver unavailable")
+        return
+    per = 150 if ctx.tier == "thorough" else 30
+    lines = []
+    for kind in MODEL_KINDS:
+        for _ in range(per):
+            ops = gen_model_hist(ctx.rng, kind, ctx.rng.randint(3, 10))
+            lines.append("Q model %s %s" % (kind, ";".join(ops)))
+    ho, err = run_sharded(ctx, harness, lines, shards=4)
+    mo, err2 = run_sharded(ctx, model, lines, shards=4)
+    if ho is None or mo is None:
+        ctx.obligation("corr:target-models.run", "correspondence", False, str(err) + str(err2))
+        return
+    bad, nops = [], 0
+    for l, h, m in zip(lines, ho, mo):
+        ha, ma = h.split("|"), m.split("|")
+        ops = l.split()[3].split(";")
+        ctx.count(1)
+        if len(ha) != len(ops) or len(ma) != len(ops):
+            bad.append((l, h[:200], m[:200]))
+            continue
+        for i, op in enumerate(ops):
+            nops += 1
+            if norm_model_answer(ha[i]) != norm_model_answer(ma[i]):
+                if l.split()[2] == "mta" and op.startswith("del/") and ha[i] == "T:TypeError" and ma[i] == "v:f":
+                    ctx.stats["target_model_known_divergence_ta_delete_throws"] = ctx.stats.get("target_model_known_divergence_ta_delete_throws", 0) + 1
+                    break      # goja: Reflect.deleteProperty(typedArray, validIndex) throws instead of returning false (typedarrays.go; not proxy.go)
+                bad.append((l, "op %d %s impl=%s" % (i, op, ha[i]), "model=%s" % ma[i]))
+                break
+        else:
+            ctx.nontriv(l)
+    ctx.stats["target_model_histories"] = len(lines)
+    ctx.stats["target_model_ops"] = nops
+    ctx.obligation("corr:target-models==implementation", "correspondence", not bad,
+                   "" if not bad else "; ".join("%s: %s %s" % b for b in bad[:5]))
+
 # ------------------------------------------------------------------------------------------------
 # main
 # ------------------------------------------------------------------------------------------------
@@ -1165,6 +1254,7 @@ def main(ctx):
     lattice(ctx, harness, model)
     keylie(ctx, harness)
     fnkinds(ctx, harness)
+    modelcorr(ctx, harness, model)
     lockstep(ctx, harness, model)
     return ctx.finish(level="proof",
                       rule="lattice: exhaustive product of the abstract domain (descriptor fields x target property shape x extensibility x trap result) for the white-box calls, "
